@@ -15,6 +15,54 @@
 #define _GNU_SOURCE
 #include "treeproto.h"
 
+/* ---- a compact last line for sanitizer reports (the orchestrator keeps only the tail of stderr) ------------------------------ */
+static char marks[160];                  /* what the edit scripts of the current request did that a finding predicate looks at */
+
+static void
+mark(const char *m)
+{
+    if (!strstr(marks, m) && (strlen(marks) + strlen(m) + 2 < sizeof marks)) {
+        strcat(marks, m);
+        strcat(marks, ",");
+    }
+}
+
+#if defined(__has_feature)
+# if __has_feature(address_sanitizer)
+void __asan_set_error_report_callback(void (*cb)(const char *));
+
+static void
+asan_report_cb(const char *report)
+{
+    const char *p = report, *q, *e;
+    int frames = 0;
+    char kind[64] = "?";
+
+    if ((q = strstr(report, "AddressSanitizer: "))) {
+        q += 18;
+        e = q + strcspn(q, " \n");
+        snprintf(kind, sizeof kind, "%.*s", (int)(e - q), q);
+    }
+    fprintf(stderr, "\n[verif-asan] kind=%s marks=%s top=", kind, marks);
+    while (frames < 8 && (p = strstr(p, "\n    #"))) {
+        p += 1;
+        e = strchr(p, '\n');
+        q = strstr(p, " in ");
+        if (!q || (e && q > e)) break;
+        q += 4;
+        fprintf(stderr, "%s%.*s", frames ? "<" : "", (int)strcspn(q, " \n"), q);
+        ++frames;
+        if (e && (e[1] == '\n')) break;       /* end of the first stack */
+    }
+    fprintf(stderr, "\n");
+}
+#  define VERIF_ASAN_CB() __asan_set_error_report_callback(asan_report_cb)
+# endif
+#endif
+#ifndef VERIF_ASAN_CB
+# define VERIF_ASAN_CB() ((void)0)
+#endif
+
 /* ---- registry: yang text per schema (fresh contexts for the cross-context ops) ------------------------------------------ */
 struct reg { char *key; char *yang; struct tp_schema *s, *s2; struct reg *next; };
 static struct reg *regs;
@@ -435,13 +483,30 @@ edit_script(const struct tp_schema *s, struct lyd_node **tree, int steps)
     int n, i, det = detached(*tree);
 
     for (i = 0; i < steps; i++) {
+        unsigned op;
+
         n = collect(*tree, arr, TP_MAXNODES * 4);
-        switch (rnd(5)) {
+        op = rnd(5);
+        if (getenv("VERIF_TRACE")) {
+            char *d = dumps(s, *tree);
+
+            fprintf(stderr, "[edit] step %d op %u on:\n%s\n", i, op, d);
+            free(d);
+        }
+        switch (op) {
         case 0:     /* change a value */
             if (!n) break;
             e = arr[rnd((unsigned)n)];
             if ((e->schema->nodetype & LYD_NODE_TERM) && !(e->schema->flags & LYS_KEY)) {
-                lyd_change_term(e, rand_value(e->schema));
+                const char *v = rand_value(e->schema);
+
+                if (getenv("VERIF_TRACE")) fprintf(stderr, "[edit] change %s '%s' -> '%s'\n", e->schema->name, lyd_get_value(e), v);
+                if ((e->schema->nodetype == LYS_LEAFLIST) && (e->schema->flags & LYS_ORDBY_SYSTEM) && lyd_parent(e) &&
+                        ((e->next && (e->next->schema == e->schema)) || (e->prev->next && (e->prev->schema == e->schema)))) {
+                    /* value change of one of several instances of a system-ordered leaf-list below a parent (finding F73) */
+                    mark("chg-sorted-ll");
+                }
+                lyd_change_term(e, v);
                 *tree = lyd_first_sibling(*tree);
             }
             break;
@@ -459,6 +524,7 @@ edit_script(const struct tp_schema *s, struct lyd_node **tree, int steps)
             if (e->schema->flags & LYS_KEY) break;
             if (det && !lyd_parent(e)) break;
             if (e == *tree) *tree = e->next;
+            if (getenv("VERIF_TRACE")) fprintf(stderr, "[edit] free %s '%s'\n", e->schema->name, (e->schema->nodetype & LYD_NODE_TERM) ? lyd_get_value(e) : "");
             lyd_free_tree(e);
             break;
         case 4:     /* unlink a subtree and link it again */
@@ -468,6 +534,7 @@ edit_script(const struct tp_schema *s, struct lyd_node **tree, int steps)
             if (det && !lyd_parent(e)) break;
             p = lyd_parent(e);
             if (e == *tree) *tree = e->next;
+            if (getenv("VERIF_TRACE")) fprintf(stderr, "[edit] relink %s '%s'\n", e->schema->name, (e->schema->nodetype & LYD_NODE_TERM) ? lyd_get_value(e) : "");
             lyd_unlink_tree(e);
             if (p) {
                 if (lyd_insert_child(p, e)) lyd_free_tree(e);
@@ -712,10 +779,13 @@ main(void)
     struct reg *rg, *nx;
 
     ly_log_options(LY_LOSTORE_LAST);
+    VERIF_ASAN_CB();
 
     while (vp_next(&r)) {
         const char *id = r.tok[0], *op = r.ntok > 2 ? r.tok[2] : "";
         const struct tp_schema *s;
+
+        marks[0] = 0;
 
         if (r.ntok < 3) { vp_reply(r.ntok ? id : "?", "err BadLine"); continue; }
         if (!strcmp(op, "leakcheck")) { vp_reply(id, "ok %d", VP_LEAKCHECK()); continue; }
